@@ -46,6 +46,11 @@ def parseBlocks (s : String) : Option (List Block) :=
 def filler (n : Nat) (seed : Nat) : Bytes :=
   (List.range n).map (fun i => ((i * 7 + seed) % 251 + 1).toUInt8)
 
+/-- `texgap`: the filler in front of the chains of LOD 1, 2, … from their lengths (joined by `|`) -/
+def parseGaps (s : String) : Option (List Bytes) := do
+  let gl ← (s.splitOn "|").mapM (·.toNat?)
+  some (gl.zipIdx.map fun (n, i) => filler n (11 + i))
+
 /-- The model's `inflate` parameter is instantiated with the executable RFC 1951 inflater
 (`Model/Inflate.lean`, itself checked against zlib by the `inflate` / `garbage` cases below): the
 (compressed, original) pairs delivered by the harness are not trusted — a stream that does not
@@ -286,20 +291,14 @@ def handle (line : String) : String :=
     | some r => r
     | none => bad
   | ["texgap", units, suffix, hdr, mips, gaps] =>
-    -- mip chains with filler between them (`Spec.packTextureG`; gap lengths joined by `|`):
-    -- correspondence only, the theorem `c02_texture` is about chains back to back
+    -- mip chains with filler between them (`Spec.packTextureG`; gap lengths joined by `|`);
+    -- theorem `c02_texture_gapped`: expected = texture header ++ mip contents, nothing of the filler
     match (do
       let hdr ← Bytes.ofHexFast hdr
       let mips ← (mips.splitOn "|").mapM parseBlocks
-      let gl ← (gaps.splitOn "|").mapM (·.toNat?)
-      let gs := gl.zipIdx.map fun (n, i) => filler n (11 + i)
-      let units ← units.toNat?
-      let suffix ← suffix.toNat?
-      let file := filler (units * 128) 3 ++ packTextureG hdr mips gs ++ filler suffix 5
-      let model := Dat.readFromOffset (inflateOf mips.flatten) file (units * 128)
-      if !textureGWf hdr mips gs then none else
-      some (answer (toString (units * 128) ++ " " ++ Bytes.toHex file)
-        (Bytes.toHex (hdr ++ contents mips.flatten)) ["corr"] (some (showRes model)))) with
+      let gs ← parseGaps gaps
+      some (finish (← units.toNat?) (← suffix.toNat?) (packTextureG hdr mips gs) mips.flatten
+        (hdr ++ contents mips.flatten) (textureGWf hdr mips gs))) with
     | some r => r
     | none => bad
   | ["mdl", units, suffix, mt, secs] =>
@@ -322,6 +321,15 @@ def handle (line : String) : String :=
       let mips ← (mips.splitOn "|").mapM parseBlocks
       some (finish (← units.toNat?) (← suffix.toNat?) (packTexture hdr mips) mips.flatten
         (hdr ++ contents mips.flatten) (textureWf hdr mips) (some ((← seed.toNat?).toUInt64, ← k.toNat?)))) with
+    | some r => r
+    | none => bad
+  | ["mut", seed, k, "texgap", units, suffix, hdr, mips, gaps] =>
+    match (do
+      let hdr ← Bytes.ofHexFast hdr
+      let mips ← (mips.splitOn "|").mapM parseBlocks
+      let gs ← parseGaps gaps
+      some (finish (← units.toNat?) (← suffix.toNat?) (packTextureG hdr mips gs) mips.flatten
+        (hdr ++ contents mips.flatten) (textureGWf hdr mips gs) (some ((← seed.toNat?).toUInt64, ← k.toNat?)))) with
     | some r => r
     | none => bad
   | ["mut", seed, k, "mdl", units, suffix, mt, secs] =>
